@@ -176,6 +176,7 @@ def pattern_raw_data(repo: Repo, rep, P: str):
         t = st.targets[0]
         where = f"{pat.file.rel}:{st.lineno}"
         vars_: Dict[str, str] = {}          # loop variable -> bound attribute
+        enum_sub_pending: List = []
         cur: ast.AST = st
         enum_loop = None
         while id(cur) in parents:
@@ -188,8 +189,32 @@ def pattern_raw_data(repo: Repo, rep, P: str):
                 if isinstance(it, ast.Call) and norm(it.func) == "enumerate" and len(it.args) == 1 and isinstance(cur.target, ast.Tuple) \
                         and len(cur.target.elts) == 2:
                     enum_loop = (cur, it.args[0])
+                    # for i, off in enumerate(range(0, self.tracks * K, K)):  i runs over range(self.tracks), off = K·i
+                    rg = packed.resolve_names(it.args[0], defs)
+                    if isinstance(rg, ast.Call) and norm(rg.func) == "range" and len(rg.args) == 3 and all(isinstance(x, ast.Name) for x in cur.target.elts):
+                        def _lf(e):
+                            ch_ = attr_chain(e)
+                            if ch_ and ch_[0] == "self" and len(ch_) == 2:
+                                return alg.Poly.sym("self." + ch_[1])
+                            try:
+                                v_ = repo.fold(e, ci=pat, sf=pat.file)
+                                if isinstance(v_, int) and not isinstance(v_, bool):
+                                    return alg.Poly.const(v_)
+                            except NotConst:
+                                pass
+                            return None
+                        try:
+                            lo_, hi_, st_ = (alg.to_poly(packed.resolve_names(x, defs), _lf) for x in rg.args)
+                            for attr_ in ("tracks", "lines"):
+                                if lo_ == alg.Poly.const(0) and hi_ == st_ * alg.Poly.sym("self." + attr_) and st_.is_const() and st_.const_value() > 0:
+                                    vars_[cur.target.elts[0].id] = attr_
+                                    enum_sub_pending.append((cur.target.elts[1].id, st_ * alg.Poly.sym(cur.target.elts[0].id)))
+                        except Exception:
+                            pass
         row_e = col_e = base_e = None
         index_sub: Dict[str, alg.Poly] = {}
+        for k_e, p_e in enum_sub_pending:
+            index_sub[k_e] = p_e
         cell = packed.resolve_names(t.value, defs)
         if isinstance(cell, ast.Subscript) and isinstance(cell.value, ast.Subscript):
             row_e, col_e, base_e = cell.value.slice, cell.slice, cell.value.value
@@ -214,6 +239,9 @@ def pattern_raw_data(repo: Repo, rep, P: str):
         val = packed.resolve_names(st.value, defs)
         if norm(base_src) not in ("self.data", "self._data"):
             rep.inconclusive(f"{P}.R2", construct, norm(st), "cell array is not self.data", where)
+            continue
+        if row_idx not in vars_ or col_idx not in vars_:
+            rep.inconclusive(f"{P}.R2", construct, norm(st), f"the range of cell index [{row_idx}][{col_idx}] is not derived (loop bounds {vars_})", where)
             continue
         if vars_.get(row_idx) != "lines" or vars_.get(col_idx) != "tracks":
             rep.violation(f"{P}.R2", construct, norm(st),
